@@ -156,3 +156,54 @@ Example resolution_example :
   /\ path_clean [] = dot /\ path_clean [47;46;46] = [47] /\ path_clean [97;47;47;98;47;46;47] = [97;47;98]
   /\ path_join [[97]; []; [46;46;47;99]] = [99] /\ path_join [[]; []] = [].
 Proof. cbn. repeat split; reflexivity. Qed.
+
+(** ** Names as the operating system resolves them ([phys_elems]) *)
+
+(** without links the operating system and the text agree (inside the tree: ".." at the top stays there) *)
+Lemma phys_step_no_links st e : Forall plain st -> phys_step [] st e = clean_step true st e /\ Forall plain (phys_step [] st e).
+Proof.
+  intros Hst. destruct (elem_cases e) as [Hs | [-> | Hpl]].
+  - unfold phys_step. rewrite Hs, (step_skip _ _ _ Hs). now split.
+  - unfold phys_step. rewrite dotdot_not_skipped, zs_eqb_refl.
+    destruct st as [|top below].
+    + cbn. split; [reflexivity|constructor].
+    + inversion Hst; subst. rewrite step_dotdot_plain by assumption. now split.
+  - rewrite step_plain by assumption. unfold phys_step.
+    destruct Hpl as (H1 & H2 & H3). rewrite H1, H2, H3. cbn [orb find_link]. split; [reflexivity|].
+    constructor; [now repeat split | assumption].
+Qed.
+
+Lemma phys_fold_no_links es : forall st, Forall plain st ->
+  fold_left (phys_step []) es st = fold_left (clean_step true) es st.
+Proof.
+  induction es as [|e es IH]; intros st Hst; cbn [fold_left]; [reflexivity|].
+  destruct (phys_step_no_links st e Hst) as [E Hp]. rewrite <- E. now apply IH.
+Qed.
+
+Theorem phys_no_links_is_clean es : phys_elems [] es = clean_elems true es.
+Proof. unfold phys_elems, clean_elems. now rewrite phys_fold_no_links by constructor. Qed.
+
+(** a link followed by "..": the operating system goes on from the directory ABOVE THE LINK'S TARGET, the
+    text of the name from the directory the link lies in *)
+Lemma phys_step_link ls st n t : plain n -> find_link ls (rev (n :: st)) = Some t -> phys_step ls st n = rev t.
+Proof. intros (H1 & H2 & H3) Hl. unfold phys_step. rewrite H1, H2, H3. cbn [orb]. now rewrite Hl. Qed.
+Lemma phys_step_dotdot ls st : phys_step ls st dotdot = tl st.
+Proof. unfold phys_step. rewrite dotdot_not_skipped, zs_eqb_refl. destruct st; reflexivity. Qed.
+
+Theorem phys_through_link ls n t rest :
+  plain n -> find_link ls [n] = Some t ->
+  fold_left (phys_step ls) (n :: dotdot :: rest) [] = fold_left (phys_step ls) rest (tl (rev t)).
+Proof.
+  intros Hn Hl. cbn [fold_left]. rewrite (phys_step_link ls [] n t Hn Hl), phys_step_dotdot. reflexivity.
+Qed.
+
+Theorem lexical_through_link n rest :
+  plain n -> fold_left (clean_step true) (n :: dotdot :: rest) [] = fold_left (clean_step true) rest [].
+Proof. intros Hn. cbn [fold_left]. rewrite (step_plain true [] n Hn), step_dotdot_plain by assumption. reflexivity. Qed.
+
+(** "lnk/../x.wsp" with lnk -> real/sub: the file is real/x.wsp, whereas the cleaned text says x.wsp *)
+Example phys_link_example :
+  let lnk := [108; 110; 107] in let real := [114; 101; 97; 108] in let sub := [115; 117; 98] in
+  let name := lnk ++ [47; 46; 46; 47; 120] in
+  phys_name [([lnk], [real; sub])] name = real ++ [47; 120] /\ path_clean name = [120].
+Proof. vm_compute. split; reflexivity. Qed.
